@@ -1,6 +1,7 @@
 """Witness search and dynamic assumption checks, delegated to the native replay binary (real crates)."""
 import json
 import os
+import re
 import subprocess
 
 
@@ -185,3 +186,157 @@ def cli_literals(repo, build, log, only=None):
             if rc in (0, 3):
                 return dict(found=True, input=inp, clause='RANGE', detail=f'literal {lit} {where} lies OUTSIDE the range but is accepted (run exit {rc}; 3 = run-time value differs from the literal)', tried=n), None
     return dict(found=False, tried=n), None
+
+
+# ---------------------------------------------------------------------------------------------------------------
+# C06: "a Builtin signature that attaches a host role to any other type is rejected" -- the acceptance contract of
+# BuiltinSignatureValidator (an arena walker outside both verifiers), evaluated through the real command-line tool on
+# one-atom mutations of the shipped signature files.
+
+_ATOM_FILES = {'i8', 'i16', 'i32', 'i64', 'u8', 'u16', 'u32', 'u64', 'f32', 'f64', 'char', 'string', 'bytes'}
+
+_SIG_MAIN = """begin
+  param (
+    (/core; /representations; /numeric; /text; /system) :
+    @(import("builtin.zy"))
+  ) that
+  let (/OS; /io; /fs; /stdio; /process) = system that
+  ! (process/exit) 0
+end
+"""
+
+
+def _sig_candidates(root):
+    import re as _re
+    cands = []
+    for dirpath, _, files in os.walk(os.path.join(root, 'builtin')):
+        if os.path.basename(dirpath) == 'intrinsic':
+            continue
+        for fn in sorted(files):
+            if not fn.endswith('.zy'):
+                continue
+            p = os.path.join(dirpath, fn)
+            text = open(p, encoding='utf-8').read()
+            if '@[builtin(' not in text:
+                continue
+            atoms = {}
+            bind_spans = []
+            for m in _re.finditer(r'(?m)^\s*let\s+([A-Z]\w*)\s*=\s*@\(import\("[^"]*intrinsic/(\w+)\.zy"\)\)\s*in\s*$', text):
+                bind_spans.append((m.start(), m.end()))
+                if m.group(2) in _ATOM_FILES:
+                    atoms[m.group(1)] = 'intrinsic:' + m.group(2)
+            for m in _re.finditer(r'(?m)^\s*param\s+([A-Z]\w*)\s*:\s*VType\s*in\s*$', text):
+                bind_spans.append((m.start(), m.end()))
+                atoms[m.group(1)] = 'param:' + m.group(1)
+            names = sorted(atoms)
+            if len(names) < 2:
+                continue
+            k = 0
+            for m in _re.finditer(r'\b(' + '|'.join(map(_re.escape, names)) + r')\b', text):
+                if any(a <= m.start() < b for a, b in bind_spans):
+                    continue
+                others = [n for n in names if atoms[n] != atoms[m.group(1)]]
+                if not others:
+                    continue
+                to = others[k % len(others)]
+                k += 1
+                cands.append((os.path.relpath(p, root), m.start(), m.end(), m.group(1), to))
+    return cands
+
+
+def cli_signature_mutations(repo, build, log, tier='quick', only=None):
+    import shutil as _sh
+    binp = build_cli(repo, build, log)
+    if not binp:
+        return None, 'CLI could not be built'
+    work = os.path.join(build, 'sig-work')
+    if os.path.exists(work):
+        _sh.rmtree(work)
+    os.makedirs(work)
+    _sh.copy(os.path.join(repo, 'lib/std/builtin.zy'), os.path.join(work, 'builtin.zy'))
+    _sh.copytree(os.path.join(repo, 'lib/std/builtin'), os.path.join(work, 'builtin'))
+    main = os.path.join(work, 'main.zy')
+    open(main, 'w').write(_SIG_MAIN)
+    env = dict(os.environ, RUST_BACKTRACE='0', NO_COLOR='1')
+
+    def check():
+        try:
+            p = subprocess.run([binp, 'check', main], env=env, stdout=subprocess.PIPE, stderr=subprocess.PIPE, text=True, timeout=120)
+            return p.returncode, (p.stdout + p.stderr)[-400:]
+        except subprocess.TimeoutExpired:
+            return -9, 'timeout'
+    rc, out = check()
+    if rc != 0:
+        return dict(found=False, broken=True, detail=f'control: the unmodified signature copy does not check (exit {rc}): {out[-200:]}', tried=0), None
+    cands = _sig_candidates(work)
+    if False and tier != 'thorough' and not only:
+        # quick: at most 5 occurrences per file, evenly spaced
+        byf = {}
+        for c in cands:
+            byf.setdefault(c[0], []).append(c)
+        cands = []
+        for f, cs in sorted(byf.items()):
+            step = max(1, len(cs) // 5)
+            cands += cs[::step][:5]
+    n = 0
+    for (rel, a, b, frm, to) in cands:
+        inp = f'{rel}@{a}:{frm}->{to}'
+        if only and only != inp:
+            continue
+        p = os.path.join(work, rel)
+        orig = open(p, encoding='utf-8').read()
+        open(p, 'w', encoding='utf-8').write(orig[:a] + to + orig[b:])
+        rc, out = check()
+        open(p, 'w', encoding='utf-8').write(orig)
+        n += 1
+        line = orig[:a].count('\n') + 1
+        if rc == 0:
+            return dict(found=True, input=inp, clause='SIGNATURE', tried=n,
+                        detail=f'{rel}:{line}: replacing `{frm}` by `{to}` in the Builtin signature is ACCEPTED: a host role is attached to a type other than its ABI classifier'), None
+        if rc == 101 or 'panicked at' in out or rc < 0:
+            return dict(found=True, input=inp, clause='SIGNATURE', tried=n, detail=f'{rel}:{line}: `{frm}`->`{to}`: the tool did not end through the normal error path (exit {rc}): {out[-200:]}'), None
+    return dict(found=False, tried=n, candidates=len(cands)), None
+
+
+# ---------------------------------------------------------------------------------------------------------------
+# C10: the totality contract of the whole front end ("exit status 0 or 1, never a panic") evaluated through the real
+# command-line tool on small syntactically plausible but ill-formed sources (all phases: parse, directives, desugar,
+# resolve, type check, diagnostics rendering). Returns EVERY failing candidate, so that known findings can be told apart.
+
+def front_end_candidates():
+    c = ['', '\n', '-- only a comment\n', '/- c -/', 'ret', 'ret ret', 'ret 1', '! 1', '{ 1 }', '1 1', 'ret (1 : 2)', 'ret (1, )', 'ret ()', 'begin end', 'begin that end',
+         'begin ret 1 end', 'let x = 1 in ret x', 'let x = in ret x', 'do x <- ret 1; ret x', 'do x <- 1; ret x', 'fn x => ret x', 'fix x => ! x', 'ret x', '! x', 'ret "a" 1']
+    metas = ['debug("l")', 'debug', 'debug(1)', 'debug("a","b")', 'monadic', 'monadic(1)', 'import("nonexistent.zy")', 'import(1)', 'import', 'import()', 'builtin(foo)', 'builtin(str_get)',
+             'builtin', 'builtin(1)', 'intrinsic(i64)', 'intrinsic(nope)', 'intrinsic', 'format(width(0))', 'format(width(99999999999))', 'format(indent(0))', 'format', 'doc("x")', 'unknown_meta', 'x(y(z("w",1)))', '"s"', '1']
+    for m in metas:
+        for body in ['1', 'ret 1', '_', '(x : Int)', 'fn x => ret x', '"s"']:
+            c.append(f'@[{m}] {body}')
+    for d in ['.a', '.a .b', '+A', '+A(.x)', '.a x', 'x .a', '(.a)', '(x, .a)']:
+        c += [f'codata | .d {d} : T end', f'codata | {d} : T end', f'data | +C {d} end', f'comatch | .d {d} => ret 1 end', f'comatch | {d} => ret 1 end', f'match 1 | {d} => ret 1 end',
+              f'fn {d} => ret 1', f'pi {d} . T', f'forall {d} . T', f'exists {d} . T', f'sigma {d} . T', f'let {d} = 1 in ret 1', f'do {d} <- ret 1; ret 1', f'fix {d} => ret 1',
+              f'begin param {d} that ret 1 end', f'begin let {d} = 1 that ret 1 end', f'ret ({d})', f'! ({d})', f'({d} : T)']
+    seen = set()
+    out = []
+    for x in c:
+        if x not in seen:
+            seen.add(x)
+            out.append(x)
+    return out
+
+
+def cli_front_end(repo, build, log, only=None):
+    binp = build_cli(repo, build, log)
+    if not binp:
+        return None, 'CLI could not be built'
+    fails = []
+    n = 0
+    for src in front_end_candidates():
+        if only is not None and src != only:
+            continue
+        n += 1
+        rc, out = cli_run(binp, build, src + '\n', 'check')
+        if rc not in (0, 1) or 'panicked at' in out:
+            m = re.search(r'panicked at ([^\n]*)\n([^\n]*)', out)
+            where = (m.group(1) + ' ' + m.group(2)) if m else out[-160:]
+            fails.append(dict(input=src, clause='panic-unreachable', detail=f'`zydeco check` did not end through the normal error path (exit {rc}): {where}'))
+    return dict(found=bool(fails), failures=fails, tried=n), None
